@@ -18,6 +18,10 @@ import DefconModel.Lemmas.ReprName
 import DefconModel.Lemmas.ReprKey
 import DefconModel.Lemmas.ReprGeom
 import DefconModel.Lemmas.ReprDom
+import DefconModel.Lemmas.ReprDep
+import DefconModel.Lemmas.ReprHoldMove
+import DefconModel.ReprLayers
+import DefconModel.Spec.ReprCells
 import DefconModel.Gen.ReprTables
 
 namespace DefconModel.Props.C03
@@ -228,7 +232,7 @@ def exWorld : World Nat := run exParams Gen.ReprTables.tables {} exOps
 def exRank (x : String) : Nat := if x = "A" then 2 else if x = "B" then 1 else 0
 
 /-- the example world is inside the structural domain … -/
-example : Dom exWorld := by
+theorem exWorld_dom : Dom exWorld := by
   apply dom_of_checks exWorld exRank (by decide) (by decide)
   · intro x g k c hg hk hb
     have hm := AL.mem_of_get? hg
@@ -274,5 +278,305 @@ example : (digest (step exParams Gen.ReprTables.tables exWorld (.rename "C" "D")
 example : PatchOK exParams := by intro nm _ ver ox oy dx dy; rfl
 
 end Example
+
+/-! ### round 3: the dependency matrix as a table; user holds; a second layer -/
+
+section Round3
+
+/-- the universal factory: the value of a representation is the view it reads (so "stale" is visible as an inequality) -/
+def hexWorld : HWorld (List Tok) := { w := run uniParams Gen.ReprTables.tables {} exOps }
+
+/-- **cells_agree.**  The public table `mutSpecs` (per class and mutator: cells it may rewrite, cells an effective call must
+rewrite, guard) and the cell codes the primitives of the model use say the same, row by row. -/
+theorem cells_agree : cellsAgree = true := by decide
+
+/-- **guards_hold.**  The guard of every row - does the method compare first and return without posting, or does it run
+to its posts whatever it is given - is the one read off the method's body in the source under test (regenerated table). -/
+theorem guards_hold : guardsAgree Gen.ReprTables.tables = true := by decide
+
+/-- **direct_calls_hold.**  The direct `destroyRepresentation` calls in the mutators of the source under test are exactly
+the ones the hold model performs inside a hold (`reverse`: the area; `move`: computed names, `moveCache`). -/
+theorem direct_calls_hold : directAgree Gen.ReprTables.tables = true := by decide
+
+example : (specOf "Component" "_set_transformation").map (·.guard) = some Guard.same := by decide
+example : (specOf "Contour" "reverse").map (·.cells) = some [Cell.contourPoints, Cell.contourIdent] := by decide
+
+/-- **dependency_sound.**  A representation's factory is any function of its row of the dependency matrix (`viewOf`: the
+stamps of the cells the matrix lists for it - for a component or a glyph, to any nesting depth).  Take any call of an
+*inner* mutator (every row of the table but `Contour.move` and `Component._set_baseGlyph`: point-list, identifier,
+transformation, attribute, groups mutators, and calls that post although they rewrite nothing) on any world of the
+structural domain, any attached object `o` and any name `nm` registered for its class.  Then
+  * if the call leaves the cells `nm` reads on `o` unchanged, the factory's value is unchanged: whatever is cached
+    may be served;
+  * if the call rewrites one of them, every entry under `nm` on `o` is gone after the call.
+Nothing here is supplied by the adaptor: the stamps are set by the model from the table, the notifications come from
+the regenerated table of the source. -/
+theorem dependency_sound (P : Params V) (T : Tables) (hcov : Coverage T = true) (w : World V) (op : Op)
+    (hin : op.isInner = true) (hd : Dom w) (hd' : Dom (step P T w op).1) (hr : RegsDefault T w)
+    (o : Obj) (nm : String) (hatt : attached w o = true)
+    (hreg : (facsOf T w.regs o.cls).any (fun p => p.1 = nm) = true) :
+    (viewOf T (step P T w op).1 o nm = viewOf T w o nm →
+        ∀ sk, fresh P T (step P T w op).1 o nm sk = fresh P T w o nm sk) ∧
+    (viewOf T (step P T w op).1 o nm ≠ viewOf T w o nm →
+        ∀ sk, (cacheOf (step P T w op).1 o).get? nm sk = none) := by
+  constructor
+  · intro h sk; unfold fresh; rw [h]
+  · intro h sk; exact dep_evicts P T hcov w op hin hd hd' hr o nm hatt hreg h sk
+
+/-- reversing the contour in C rewrites a cell that the bounds of the component in A read (two hops away) … -/
+example : viewOf Gen.ReprTables.tables (step exParams Gen.ReprTables.tables exWorld (.cmut 1 "reverse")).1 (.comp 3)
+    "defcon.component.bounds" ≠ viewOf Gen.ReprTables.tables exWorld (.comp 3) "defcon.component.bounds" := by decide
+/-- … giving the contour an identifier does not -/
+example : viewOf Gen.ReprTables.tables (step exParams Gen.ReprTables.tables exWorld (.cmut 1 "_set_identifier")).1 (.comp 3)
+    "defcon.component.bounds" = viewOf Gen.ReprTables.tables exWorld (.comp 3) "defcon.component.bounds" := by decide
+example : (Op.cmut 1 "reverse").isInner = true := rfl
+
+/-- **hold_free_is_plain.**  While the user holds and disables nothing, the model with holds IS the plain model: every
+theorem above speaks about such histories unchanged. -/
+theorem hold_free_is_plain (P : Params V) (T : Tables) (hw : HWorld V) (op : Op) (hq : hw.quiet = true) :
+    (hstep P T hw (.base op)).1.w = (step P T hw.w op).1 ∧ (hstep P T hw (.base op)).2 = (step P T hw.w op).2 ∧
+    (hstep P T hw (.base op)).1.holds = hw.holds ∧ (hstep P T hw (.base op)).1.queue = hw.queue := by
+  simp [hstep, hq]
+
+example : hexWorld.quiet = true := by decide
+
+/-- cached under `nm` (no keyword arguments) on `o`, and not what the factory computes now -/
+def StaleAt (w : World (List Tok)) (o : Obj) (nm : String) : Prop :=
+  (cacheOf w o).get? nm none ≠ none ∧
+  (cacheOf w o).get? nm none ≠ some (fresh uniParams Gen.ReprTables.tables w o nm none)
+
+instance (w : World (List Tok)) (o : Obj) (nm : String) : Decidable (StaleAt w o nm) := by
+  unfold StaleAt; exact inferInstance
+
+/-- the user holds the contour of C and appends a point -/
+def heldEdit : HWorld (List Tok) :=
+  hrun uniParams Gen.ReprTables.tables hexWorld [.hold (.contour 1), .base (.cmut 1 "appendPoint")]
+
+/-- **stale_inside_hold.**  Is a representation requested INSIDE a user hold stale?  YES: `contour.holdNotifications()`
+queues every post of the contour, its own `selfNotificationCallback` included.  Witness (A → B → C by components, every
+cache filled): the user holds the contour of C and appends a point.  The contour's cached bounds are still there and
+differ from what the factory computes now; a request is answered from the cache (`got 0`); the same holds two component
+hops up.  The property's histories are interleavings of requests and public mutators - `holdNotifications` is
+neither -, so this is the edge of the property's domain, not a defect of the code. -/
+theorem stale_inside_hold :
+    StaleAt heldEdit.w (.contour 1) "defcon.contour.bounds" ∧
+    (hstep uniParams Gen.ReprTables.tables heldEdit (.base (.get (.contour 1) "defcon.contour.bounds" []))).2 = .got 0 ∧
+    StaleAt heldEdit.w (.comp 3) "defcon.component.bounds" := by decide +kernel
+
+/-- … and the release delivers what was queued: nothing stale is left (the general statement is `release_restores`) -/
+example : digest (hrun uniParams Gen.ReprTables.tables heldEdit [.release (.contour 1)]).w = [] := by decide +kernel
+
+def heldMove : HWorld (List Tok) :=
+  hrun uniParams Gen.ReprTables.tables hexWorld [.hold (.contour 1), .base (.cmove 1 5 7)]
+
+/-- **move_is_direct_inside_hold.**  What a mutator does by DIRECT calls happens inside a hold too: `Contour.move` patches
+the two bounds entries of the held contour in place (they stay right) - only what depends on the notification (the
+glyph's area, the bounds of the components that reference the glyph) goes stale. -/
+theorem move_is_direct_inside_hold :
+    (cacheOf heldMove.w (.contour 1)).get? "defcon.contour.bounds" none =
+      some (fresh uniParams Gen.ReprTables.tables heldMove.w (.contour 1) "defcon.contour.bounds" none) ∧
+    StaleAt heldMove.w (.comp 3) "defcon.component.bounds" := by decide +kernel
+
+def disabledEdit : HWorld (List Tok) :=
+  hrun uniParams Gen.ReprTables.tables hexWorld
+    [.disable (.contour 1), .base (.cmut 1 "appendPoint"), .enable (.contour 1)]
+
+/-- **disable_loses_eviction.**  `disableNotifications` loses the eviction for good: after `enable` the stale value is
+still served, until some later change evicts it.  (A disable is a request NOT to be told; the property's histories do
+not contain it.) -/
+theorem disable_loses_eviction :
+    disabledEdit.quiet = true ∧ StaleAt disabledEdit.w (.contour 1) "defcon.contour.bounds" := by decide +kernel
+
+/-- The statement of what the code guarantees around user holds: `InvH` - every cached value of every object is what
+its factory computes now, OR a post that destroys it is waiting in the queue of a hold that is still in force - is kept
+by every operation: holds and releases (counted, nested, of contours, components, glyphs, the groups, released in any
+order), requests, cache calls, and every inner mutator and `Contour.move` while something is held, anything at all while
+nothing is. -/
+def HoldInvariant (P : Params V) (T : Tables) : Prop :=
+  ∀ (hw0 : HWorld V) (ops : List HOp), InvH P T hw0 →
+    (∀ pre op, pre ++ [op] <+: ops → op.okIn (hrun P T hw0 pre) = true) →
+    (∀ pre, pre <+: ops → Dom (hrun P T hw0 pre).w) → InvH P T (hrun P T hw0 ops)
+
+/-- **hold_invariant.**  See `HoldInvariant`.  Hypotheses: the coverage obligation (discharged over the regenerated
+tables), the patch of `Contour.move`, the structural domain at every step, no `disableNotifications` (`HOp.okIn`). -/
+theorem hold_invariant (P : Params V) (T : Tables) (hcov : Coverage T = true) (hpatch : PatchOK P) :
+    HoldInvariant P T := by
+  intro hw0 ops h0 hok hdom
+  induction ops generalizing hw0 with
+  | nil => exact h0
+  | cons op rest ih =>
+    have d0 : Dom hw0.w := hdom [] List.nil_prefix
+    have d1 : Dom (hstep P T hw0 op).1.w := hdom [op] (by simp)
+    have k0 : op.okIn hw0 = true := hok [] op (by simp)
+    have i1 := hstep_invH P T hcov hpatch hw0 op k0 h0 d0 d1
+    refine ih (hstep P T hw0 op).1 i1 ?_ ?_
+    · intro pre o hpre
+      have := hok (op :: pre) o (by simpa using hpre)
+      simpa [hrun] using this
+    · intro pre hpre
+      have := hdom (op :: pre) (by simpa using hpre)
+      simpa [hrun] using this
+
+/-- **release_restores.**  Start from any world in which nothing is stale and nothing is held.  After ANY history of
+holds, releases, requests, cache calls and mutators as in `hold_invariant`: once no hold is in force any more, nothing is
+stale - every cached value of every object equals its factory applied to the object's current view, exactly as if the
+user had never held anything.  (Inside the holds values may be stale: `stale_inside_hold`.) -/
+theorem release_restores (P : Params V) (T : Tables) (hcov : Coverage T = true) (hpatch : PatchOK P)
+    (w0 : World V) (ops : List HOp) (h0 : Inv P T w0)
+    (hok : ∀ pre op, pre ++ [op] <+: ops → op.okIn (hrun P T { w := w0 } pre) = true)
+    (hdom : ∀ pre, pre <+: ops → Dom (hrun P T { w := w0 } pre).w)
+    (hrel : (hrun P T { w := w0 } ops).holds = []) : Inv P T (hrun P T { w := w0 } ops).w :=
+  inv_of_invH (hold_invariant P T hcov hpatch { w := w0 } ops (invH_of_inv h0 rfl rfl) hok hdom) hrel
+
+/-- … and while the holds are in force, a value that is stale is one whose eviction is queued -/
+theorem stale_only_if_owed (P : Params V) (T : Tables) (hcov : Coverage T = true) (hpatch : PatchOK P)
+    (w0 : World V) (ops : List HOp) (h0 : Inv P T w0)
+    (hok : ∀ pre op, pre ++ [op] <+: ops → op.okIn (hrun P T { w := w0 } pre) = true)
+    (hdom : ∀ pre, pre <+: ops → Dom (hrun P T { w := w0 } pre).w)
+    (o : Obj) (nm : String) (sk : SubKey) (v : V)
+    (hv : (cacheOf (hrun P T { w := w0 } ops).w o).get? nm sk = some v)
+    (hstale : v ≠ fresh P T (hrun P T { w := w0 } ops).w o nm sk) :
+    OwedBy T (hrun P T { w := w0 } ops).w (hrun P T { w := w0 } ops).queue o nm := by
+  rcases (hold_invariant P T hcov hpatch { w := w0 } ops (invH_of_inv h0 rfl rfl) hok hdom).coh o nm sk v hv with h | h
+  · exact absurd h hstale
+  · exact h
+
+/-- a history that meets the hypotheses: hold the contour of C, ask for its bounds, mark it dirty (the post is queued), hold
+the glyph too, release both -/
+def holdOps : List HOp :=
+  [.hold (.contour 1), .base (.get (.contour 1) "defcon.contour.bounds" []), .base (.touch (.contour 1) "_set_dirty"),
+   .hold (.glyph "C"), .release (.contour 1), .release (.glyph "C")]
+
+def sameStructB {V : Type} (w w' : World V) : Bool :=
+  decide (w'.glyphs = w.glyphs) && decide (w'.looseC = w.looseC) && decide (w'.looseK = w.looseK) &&
+  decide (w'.fuel = w.fuel) && decide (w'.groupsVer = w.groupsVer) && decide (w'.regs = w.regs)
+
+theorem sameStruct_of_B {V : Type} {w w' : World V} (h : sameStructB w w' = true) : SameStruct w w' := by
+  unfold sameStructB at h
+  simp only [Bool.and_eq_true, decide_eq_true_eq] at h
+  obtain ⟨⟨⟨⟨⟨h1, h2⟩, h3⟩, h4⟩, h5⟩, h6⟩ := h
+  exact ⟨h1, h2, h3, h4, h5, h6⟩
+
+example : ∀ pre, pre <+: holdOps →
+    Dom (hrun exParams Gen.ReprTables.tables { w := exWorld } pre).w ∧
+    ∀ op, pre ++ [op] <+: holdOps → op.okIn (hrun exParams Gen.ReprTables.tables { w := exWorld } pre) = true := by
+  intro pre hpre
+  have hall : ∀ n, n ∈ List.range 7 →
+      sameStructB exWorld (hrun exParams Gen.ReprTables.tables { w := exWorld } (holdOps.take n)).w = true ∧
+      ∀ op, op ∈ holdOps → op.okIn (hrun exParams Gen.ReprTables.tables { w := exWorld } (holdOps.take n)) = true := by
+    decide +kernel
+  have hpt : pre = holdOps.take pre.length := List.prefix_iff_eq_take.mp hpre
+  have hlen : pre.length ∈ List.range 7 := by
+    have := hpre.length_le
+    simp only [List.mem_range]
+    have h6 : holdOps.length = 6 := rfl
+    omega
+  obtain ⟨h1, h2⟩ := hall pre.length hlen
+  rw [← hpt] at h1 h2
+  refine ⟨Dom.congr (sameStruct_of_B h1) exWorld_dom, ?_⟩
+  intro op hop
+  apply h2
+  have : op ∈ pre ++ [op] := by simp
+  exact (List.IsPrefix.sublist hop).subset this
+
+/-- the queue is really used in that history (the post of `dirty = True` waits, then moves to the glyph's hold) … -/
+example : ((hrun exParams Gen.ReprTables.tables { w := exWorld } (holdOps.take 5)).queue.map Prod.fst) = [Obj.glyph "C"] := by
+  decide +kernel
+/-- … and everything is released at the end -/
+example : (hrun exParams Gen.ReprTables.tables { w := exWorld } holdOps).holds = [] ∧
+    (hrun exParams Gen.ReprTables.tables { w := exWorld } holdOps).queue = [] := by decide +kernel
+
+/-- **other_layer_invisible.**  Whatever happens in one layer - edits, renames, deletions, holds, requests - the other
+layer keeps its glyphs, its caches, its holds and its queue: a component whose base name exists in the other layer only
+does not follow that glyph (for it the name is missing), and no request in one layer is answered from the other.  (The
+one thing that crosses is the record of an object that belongs to no glyph, when it is inserted on the other side.) -/
+theorem other_layer_invisible (P : Params V) (T : Tables) (f : Font V) (l : Lay) (hop : HOp) :
+    ((fstep P T f l hop).1.get l.other).w.glyphs = (f.get l.other).w.glyphs ∧
+    ((fstep P T f l hop).1.get l.other).w.caches = (f.get l.other).w.caches ∧
+    ((fstep P T f l hop).1.get l.other).holds = (f.get l.other).holds ∧
+    ((fstep P T f l hop).1.get l.other).queue = (f.get l.other).queue := by
+  have hsync : ∀ (g : Font V), ((g.sync).get l.other).w.glyphs = (g.get l.other).w.glyphs ∧
+      ((g.sync).get l.other).w.caches = (g.get l.other).w.caches ∧
+      ((g.sync).get l.other).holds = (g.get l.other).holds ∧
+      ((g.sync).get l.other).queue = (g.get l.other).queue := by
+    intro g; cases l <;> exact ⟨rfl, rfl, rfl, rfl⟩
+  have hset : ∀ (g : Font V) (hw : HWorld V), (g.set l hw).get l.other = g.get l.other := by
+    intro g hw; cases l <;> rfl
+  have hset2 : ∀ (g : Font V) (hw : HWorld V), (g.set l.other hw).get l.other = hw := by
+    intro g hw; cases l <;> rfl
+  have hmig : ∀ op, ((migrate f l op).get l.other).w.glyphs = (f.get l.other).w.glyphs ∧
+      ((migrate f l op).get l.other).w.caches = (f.get l.other).w.caches ∧
+      ((migrate f l op).get l.other).holds = (f.get l.other).holds ∧
+      ((migrate f l op).get l.other).queue = (f.get l.other).queue := by
+    intro op
+    unfold migrate
+    cases op <;> try exact ⟨rfl, rfl, rfl, rfl⟩
+    · rename_i g cid idx
+      simp only
+      cases (f.get l.other).w.looseC.find? (fun c => c.id = cid) with
+      | none => exact ⟨rfl, rfl, rfl, rfl⟩
+      | some c =>
+        simp only
+        split
+        · exact ⟨rfl, rfl, rfl, rfl⟩
+        · rw [hset2]; exact ⟨rfl, rfl, rfl, rfl⟩
+    · rename_i g kid idx
+      simp only
+      cases (f.get l.other).w.looseK.find? (fun k => k.id = kid) with
+      | none => exact ⟨rfl, rfl, rfl, rfl⟩
+      | some k =>
+        simp only
+        split
+        · exact ⟨rfl, rfl, rfl, rfl⟩
+        · rw [hset2]; exact ⟨rfl, rfl, rfl, rfl⟩
+  cases hop with
+  | base op =>
+    by_cases hreg : ∃ cls name, op = .register cls name
+    · obtain ⟨cls, name, rfl⟩ := hreg
+      have hs := hsync { l0 := (hstep P T f.l0 (.base (.register cls name))).1, l1 := (hstep P T f.l1 (.base (.register cls name))).1 }
+      have e : (fstep P T f l (.base (.register cls name))).1 =
+          Font.sync { l0 := (hstep P T f.l0 (.base (.register cls name))).1, l1 := (hstep P T f.l1 (.base (.register cls name))).1 } := rfl
+      rw [e]
+      obtain ⟨h1, h2, h3, h4⟩ := hs
+      rw [h1, h2, h3, h4]
+      cases l <;> simp only [hstep, step, Font.get, Lay.other] <;> split <;> exact ⟨rfl, rfl, rfl, rfl⟩
+    · have : (fstep P T f l (.base op)).1 =
+          ((migrate f l op).set l (hstep P T ((migrate f l op).get l) (.base op)).1).sync := by
+        cases op <;> first | rfl | exact absurd ⟨_, _, rfl⟩ hreg
+      rw [this]
+      obtain ⟨h1, h2, h3, h4⟩ := hsync ((migrate f l op).set l (hstep P T ((migrate f l op).get l) (.base op)).1)
+      rw [h1, h2, h3, h4, hset]; exact hmig op
+  | hold o =>
+    simp only [fstep]
+    obtain ⟨h1, h2, h3, h4⟩ := hsync (f.set l (hstep P T (f.get l) (.hold o)).1)
+    rw [h1, h2, h3, h4, hset]; exact ⟨rfl, rfl, rfl, rfl⟩
+  | release o =>
+    simp only [fstep]
+    obtain ⟨h1, h2, h3, h4⟩ := hsync (f.set l (hstep P T (f.get l) (.release o)).1)
+    rw [h1, h2, h3, h4, hset]; exact ⟨rfl, rfl, rfl, rfl⟩
+  | disable o =>
+    simp only [fstep]
+    obtain ⟨h1, h2, h3, h4⟩ := hsync (f.set l (hstep P T (f.get l) (.disable o)).1)
+    rw [h1, h2, h3, h4, hset]; exact ⟨rfl, rfl, rfl, rfl⟩
+  | enable o =>
+    simp only [fstep]
+    obtain ⟨h1, h2, h3, h4⟩ := hsync (f.set l (hstep P T (f.get l) (.enable o)).1)
+    rw [h1, h2, h3, h4, hset]; exact ⟨rfl, rfl, rfl, rfl⟩
+
+def layOps : List (Lay × HOp) :=
+  [(.a, .base (.newGlyph "A")), (.a, .base (.mkComp 1 (some "X"))), (.a, .base (.insComp "A" 1 0)),
+   (.b, .base (.newGlyph "X")), (.b, .base (.mkContour 2)), (.b, .base (.insContour "X" 2 0)),
+   (.a, .base (.get (.comp 1) "defcon.component.bounds" []))]
+
+def layFont1 : Font Nat := layOps.foldl (fun f p => (fstep exParams Gen.ReprTables.tables f p.1 p.2).1) {}
+def layFont2 : Font Nat := (fstep exParams Gen.ReprTables.tables layFont1 .b (.base (.cmut 2 "reverse"))).1
+
+/-- the second layer has a glyph X; the first layer's component on X reads `missing` before and after X is edited there -/
+example : viewOf Gen.ReprTables.tables layFont2.l0.w (.comp 1) "defcon.component.bounds" = [Tok.k 2, Tok.missing] := by
+  decide +kernel
+example : (digest layFont1.l0.w).map Prod.fst = [Obj.comp 1] := by decide +kernel
+example : (digest layFont2.l0.w).map Prod.fst = [Obj.comp 1] := by decide +kernel
+
+end Round3
 
 end DefconModel.Props.C03
